@@ -37,6 +37,18 @@ impl LockfreeArena {
         })
     }
 
+    /// Read-only view of the arena's layout
+    #[cfg(lasso_verif)]
+    pub(crate) fn verif_audit(&self) -> crate::verif::ArenaAudit {
+        crate::verif::ArenaAudit {
+            lockfree: true,
+            blocks: self.buckets.iter().map(|bucket| bucket.verif_audit()).collect(),
+            bucket_capacity: self.bucket_capacity.load(Ordering::Relaxed),
+            memory_usage: self.memory_usage.load(Ordering::Relaxed),
+            max_memory_usage: self.max_memory_usage.load(Ordering::Relaxed),
+        }
+    }
+
     #[inline]
     pub(crate) fn current_memory_usage(&self) -> usize {
         self.memory_usage.load(Ordering::Relaxed)
@@ -64,8 +76,11 @@ impl LockfreeArena {
     fn allocate_memory(&self, requested_mem: usize) -> LassoResult<()> {
         // The check against the limit and the increment have to be a single atomic
         // step, otherwise two threads can both pass the check and together exceed the limit
+        verif_point!(PRE_USAGE_LOAD, 1, requested_mem);
         self.memory_usage
             .fetch_update(Ordering::Relaxed, Ordering::Relaxed, |memory_usage| {
+                verif_point!(OBS_USAGE_LOAD, memory_usage, 1);
+                verif_point!(PRE_LIMIT_LOAD, 1, 0);
                 if memory_usage + requested_mem > self.max_memory_usage.load(Ordering::Relaxed) {
                     None
                 } else {
@@ -104,6 +119,7 @@ impl LockfreeArena {
         // better memory usage.
         for bucket in self.buckets.iter() {
             if let Ok(start) = bucket.try_inc_length(slice.len()) {
+                verif_point!(OBS_STORED, bucket.as_ptr() as usize, start);
                 // Safety: We now have exclusive access to `bucket[start..start + slice.len()]`
                 let allocated = unsafe { bucket.slice_mut(start) };
                 // Copy the given slice into the allocation
@@ -122,8 +138,10 @@ impl LockfreeArena {
 
         // If we couldn't find a pre-existing bucket with enough room in it, allocate our own bucket
 
+        verif_point!(PRE_BUCKET_CAP_LOAD, 0, 0);
         let next_capacity = self.bucket_capacity.load(Ordering::Relaxed) * 2;
         debug_assert_ne!(next_capacity, 0);
+        verif_point!(OBS_BUCKET_CAP_LOAD, next_capacity / 2, 0);
 
         // If the current string's length is greater than the doubled current capacity, allocate a bucket exactly the
         // size of the large string and push it back in the buckets vector. This ensures that obscenely large strings will
@@ -138,6 +156,7 @@ impl LockfreeArena {
             debug_assert_ne!(slice.len(), 0);
 
             let mut bucket = AtomicBucket::with_capacity(non_zero_len)?;
+            verif_point!(OBS_BUCKET_ALLOC, bucket.as_ptr() as usize, slice.len());
 
             // Safety: The new bucket will have exactly enough room for the string and we have
             //         exclusive access to the bucket since we just created it
@@ -146,8 +165,12 @@ impl LockfreeArena {
 
             Ok(allocated_string)
         } else {
+            verif_point!(PRE_USAGE_LOAD, 0, 0);
             let memory_usage = self.current_memory_usage();
+            verif_point!(OBS_USAGE_LOAD, memory_usage, 0);
+            verif_point!(PRE_LIMIT_LOAD, 0, 0);
             let max_memory_usage = self.get_max_memory_usage();
+            verif_point!(OBS_LIMIT_LOAD, max_memory_usage, 0);
 
             // If trying to use the doubled capacity will surpass our memory limit, just allocate as much as we can
             if memory_usage + next_capacity > max_memory_usage {
@@ -166,6 +189,7 @@ impl LockfreeArena {
                     NonZeroUsize::new(remaining_memory)
                         .ok_or_else(|| LassoError::new(LassoErrorKind::MemoryLimitReached))?,
                 )?;
+                verif_point!(OBS_BUCKET_ALLOC, bucket.as_ptr() as usize, remaining_memory);
 
                 // Safety: The new bucket will have exactly enough room for the string and we have
                 //         exclusive access to the bucket since we just created it
@@ -182,6 +206,7 @@ impl LockfreeArena {
                 self.allocate_memory(next_capacity)?;
 
                 // Set the capacity to twice of what it currently is to allow for fewer allocations as more strings are interned
+                verif_point!(PRE_BUCKET_CAP_STORE, next_capacity, 0);
                 self.set_bucket_capacity(next_capacity);
 
                 // Safety: `next_capacity` will never be zero
@@ -189,6 +214,7 @@ impl LockfreeArena {
                 debug_assert_ne!(next_capacity, 0);
 
                 let mut bucket = AtomicBucket::with_capacity(capacity)?;
+                verif_point!(OBS_BUCKET_ALLOC, bucket.as_ptr() as usize, next_capacity);
 
                 // Safety: The new bucket will have enough room for the string
                 let allocated_string = unsafe { bucket.push_slice(slice) };
